@@ -5,7 +5,7 @@
      psutil/__init__.py : _last_cpu_times* (1698-1710, 1847-1848), _cpu_tot_time,
                           _cpu_busy_time, _cpu_times_deltas (1713-1766),
                           cpu_percent (1769-1842), cpu_times_percent (1851-1907),
-                          Process.cpu_percent (1018-1109).
+                          Process.cpu_percent (1018-1112, as of commit 8e92b46).
    Seconds and percentages are exact rationals (Q); Python floats and round(x, 1)
    are NOT modelled (DESIGN 3.3): every value is the exact real-number value of
    the expression the code evaluates, before round(). CLOCK_TICKS is the
@@ -231,7 +231,9 @@ Fixpoint run (clk : positive) (st : sys_state) (evs : list event) : list (outcom
   end.
 
 (* ------------------------------------------------------------ Process.cpu_percent *)
-Record pstate := { p_sys : option Q;            (* _last_sys_cpu_times : timer() * num_cpus *)
+(* (code after /repo commit 8e92b46: the stored timestamp is the plain wall clock and
+   the elapsed time is scaled by num_cpus) *)
+Record pstate := { p_sys : option Q;            (* _last_sys_cpu_times : timer() = _timer() *)
                    p_proc : option (Q * Q) }.   (* _last_proc_cpu_times : (user, system) seconds *)
 Definition p_init : pstate := {| p_sys := None; p_proc := None |}.
 
@@ -244,9 +246,12 @@ Record pevent := { pe_iv : ival; pe_ncpu : Z;
 (* num_cpus = cpu_count() or 1   (cpu_count() is None when the platform says < 1) *)
 Definition ncpu_eff (n : Z) : Z := if n <? 1 then 1 else n.
 
+(* delta_proc = (pt2.user - pt1.user) + (pt2.system - pt1.system)
+   delta_time = (st2 - st1) * num_cpus ; store st2, pt2 ;
+   (delta_proc / delta_time) * 100 * num_cpus, ZeroDivisionError -> 0.0 *)
 Definition proc_finish (st1 : Q) (pt1 : Q * Q) (st2 : Q) (pt2 : Q * Q) (n : Z) : pstate * outcome Q :=
   let delta_proc := ((fst pt2 - fst pt1) + (snd pt2 - snd pt1))%Q in
-  let delta_time := (st2 - st1)%Q in
+  let delta_time := ((st2 - st1) * inject_Z n)%Q in
   ({| p_sys := Some st2; p_proc := Some pt2 |},
    Val (if qzero delta_time then 0%Q else ((delta_proc / delta_time) * 100 * inject_Z n)%Q)).
 
@@ -255,11 +260,11 @@ Definition proc_step (clk : positive) (st : pstate) (e : pevent) : pstate * outc
   | INeg => (st, Exc ValueError)
   | IPos =>
     let n := ncpu_eff (pe_ncpu e) in
-    proc_finish (pe_t1 e * inject_Z n)%Q (secs clk (pe_u1 e), secs clk (pe_s1 e))
-                (pe_t2 e * inject_Z n)%Q (secs clk (pe_u2 e), secs clk (pe_s2 e)) n
+    proc_finish (pe_t1 e) (secs clk (pe_u1 e), secs clk (pe_s1 e))
+                (pe_t2 e) (secs clk (pe_u2 e), secs clk (pe_s2 e)) n
   | INone | IZero =>
     let n := ncpu_eff (pe_ncpu e) in
-    let st2 := (pe_t1 e * inject_Z n)%Q in
+    let st2 := pe_t1 e in
     let pt2 := (secs clk (pe_u1 e), secs clk (pe_s1 e)) in
     match p_sys st, p_proc st with
     | Some st1, Some pt1 => proc_finish st1 pt1 st2 pt2 n
